@@ -210,6 +210,18 @@ def _txn(ctx, cfg, prog, mod):
         ctx.ob('TXN', q + '|inverse-on-failure-edge-only', cfg, ok,
                'restore-by-inverse (%s undoing %s) is %s reachable only through a failure edge; table reason: %s' % (
                    txn.short(inv), txn.short(undone), '' if ok else 'NOT', reason), site='%s:%d' % (b.file, b.line))
+        # ... and only after the undone call has succeeded: an undo that can run where the "do" never happened (the
+        # undone call itself failed, e.g. a refused duplicate UUID) removes something that was there before
+        done_edges = set()
+        for ub in undone_blocks:
+            done_edges |= cflows[ub].ok_edges
+        reach2 = flow.reach_edges(b, [0], avoid_edges=done_edges)
+        ok2 = bool(inv_blocks) and bool(done_edges) and not any(ib in reach2 for ib in inv_blocks)
+        ctx.ob('TXN', q + '|inverse-only-after-success', cfg, ok2,
+               'restore-by-inverse (%s) is %s reachable only behind the success edge of %s%s' % (
+                   txn.short(inv), '' if ok2 else 'NOT', txn.short(undone),
+                   '' if ok2 else ': when the undone call itself fails (it refuses a UUID that is already present) the inverse '
+                   'runs on the pre-existing element and the failing call deletes it'), site='%s:%d' % (b.file, b.line))
     _snaparg(ctx, cfg, prog, mod, res, eng)
     _snapcond(ctx, cfg, prog, mod)
     _side(ctx, cfg, prog, mod)
